@@ -192,6 +192,7 @@ PROPS = {
         assumptions=['clauses are compared as literal lists (a MUS clause must appear with the same literal order as in the input)'],
     ),
     'C08': dict(
+        theorem_files=['C08', 'C08g'],
         parts=[dict(harness='C08', judge='C08', cases=dict(quick=5000, thorough=50000), judge_module='Judge.J06', judge_fn='judge_C08'),
                dict(harness='C08s', judge='C08s', cases=dict(quick=2000, thorough=20000)),
                dict(harness='G08', judge='goirup', cases=dict(quick=6000, thorough=60000), judge_module='Judge.J26', judge_fn='judge_goir_up', kernel_cases=60, kernel_maxlen=1500, needs_hooks=True)],
